@@ -2074,15 +2074,15 @@ def ribcs_cfg(Scns, Serial=False, EmitOn=False, view=True, inv=True):
 
 def ribcs_attr(comp):
     return {"ribcsTables": {"C01", "C02", "C11"}, "ribcsCounters": {"C03", "C11"}, "ribcsPending": {"C02", "C06", "C11"},
-            "ribcsResult": {"C06", "C02", "C11"}, "ribcsReturn": {"C06", "C11"}, "ribcsGate": {"C11"}, "ribcsNotEnabled": {"C11", "C02", "C03", "C06"},
+            "ribcsResult": {"C06", "C02", "C11"}, "ribcsReturn": {"C06", "C11"}, "ribcsGate": {"C11", "C08"}, "ribcsNotEnabled": {"C11", "C02", "C03", "C06"},
             "ribcsHang": {"C11", "C08", "C10"}, "ribcsFlushError": {"C08", "C11"}}.get(comp, set())
 
 
 class RibCSFamily:
     FAMILY = "ribcs"
     # scenarios whose interleavings are few enough to be replayed one by one at the quick tier
-    SMALL = (1, 2, 4, 5, 6, 8, 9, 11, 12, 13)
-    LARGE = (3, 7, 10)
+    SMALL = (1, 2, 4, 5, 6, 8, 9, 12, 13)
+    LARGE = (3, 7, 10, 11, 14)
 
     def __init__(self, prop):
         self.prop = prop
@@ -2096,7 +2096,7 @@ class RibCSFamily:
         run = require_ok(ctx.tlc("GribiRIBCS_MC", None, name="mc-ribcs-serial", workers=vlib.NCPU, cfg_text=ribcs_cfg("AllScns", Serial=True), timeout=3000, heap="16g"),
                          "model checking GribiRIBCS_MC (Serial)")
         states, trans = run.distinct, run.generated
-        mcs.append({"module": "GribiRIBCS_MC", "constants": {"Scns": "AllScns (13 + 144 pairs)", "Serial": True}, "invariant": "QuiescentConsistent holds",
+        mcs.append({"module": "GribiRIBCS_MC", "constants": {"Scns": "AllScns (14 + 144 pairs)", "Serial": True}, "invariant": "QuiescentConsistent holds",
                     "distinct_states": run.distinct, "generated": run.generated, "secs": round(run.secs, 1)})
         # ... and at the code's grain of atomicity TLC finds the interleavings that break them (the open findings)
         run = ctx.tlc("GribiRIBCS_MC", None, name="mc-ribcs-conc", workers=vlib.NCPU, cfg_text=ribcs_cfg(self.SMALL, Serial=False), timeout=3000, heap="16g")
@@ -2111,7 +2111,7 @@ class RibCSFamily:
                          "exhaustive schedule emission (GribiRIBCS_MC)")
         walks += run.emitted()
         nexh = len(walks)
-        for i, (scns, num) in enumerate([(self.LARGE, 400 if quick else 12000), ("PairScns", 1500 if quick else 60000)]):
+        for i, (scns, num) in enumerate([(self.LARGE, 600 if quick else 15000), ("PairScns", 1500 if quick else 60000)]):
             run = require_ok(ctx.tlc("GribiRIBCS_MC", None, name="sim-ribcs", simulate=num, depth=100, seed=ctx.seed * 100 + i,
                                      cfg_text=ribcs_cfg(scns, EmitOn=True, inv=False), timeout=3000), "schedule simulation (GribiRIBCS_MC)")
             walks += run.emitted()
